@@ -321,8 +321,35 @@ def _random_walk(rng, pool):
     return line(ops)
 
 
+EID_TEXTS = [b"dtn:none", b"dtn://n", b"dtn://n/", b"dtn://n/svc", b"dtn://n/~grp", b"dtn:/x", b"dtn:x", b"dtn:", b"dtn://", b"dtn:///", b"dtn://none",
+             b"dtn://none/", b"dtn://none/x", b"dtn:none/", b"ipn:1.2", b"ipn:1.0", b"ipn:0.1", b"ipn:0.0", b"ipn:1.2.3", b"ipn:1", b"ipn:.", b"ipn:1.",
+             b"ipn:.2", b"ipn:+1.+2", b"ipn:-1.2", b"ipn:1.-2", b"ipn:+.1", b"ipn:007.010", b"ipn: 1.2", b"ipn:18446744073709551615.18446744073709551615",
+             b"ipn:18446744073709551616.1", b"ipn:1.18446744073709551616", b"http://x/", b"", b":", b"::", b"dtn", b"ipn", b"DTN://n/", b"dtn:://n/",
+             "dtn://knoten-\u00e4/\u20ac".encode(), b"dtn://a\xff/", b"\xc3(", b"dtn://a\x00b/", b"ipn:1.2\x00junk", b"\x00dtn://a/", b"dtn://a/b/c/d", b"dtn://a//"]
+
+
+def _rnd_eid_text(rng):
+    r = rng.random()
+    if r < 0.75:
+        return rng.choice(EID_TEXTS)
+    if r < 0.9:     # splice two texts
+        a, b = rng.choice(EID_TEXTS), rng.choice(EID_TEXTS)
+        return a[:rng.randrange(len(a) + 1)] + b[rng.randrange(len(b) + 1):]
+    return bytes(rng.choice(b"dtnip:/.+-0129~ax\x00\xc3\xa4") for _ in range(rng.randrange(0, 12)))
+
+
 def cases(rng, tier):
     out = []
+    # bundle_new_default on valid and invalid EID texts (abort exactly on the caller errors), then the full query/free cycle
+    for _ in range(400 if tier == "quick" else 20000):
+        src, dst = _rnd_eid_text(rng), _rnd_eid_text(rng)
+        if rng.random() < 0.5:
+            src = rng.choice([b"dtn://n1/a", b"ipn:7.1", b"dtn:none"])
+        if rng.random() < 0.5:
+            dst = rng.choice([b"dtn://n2/~g", b"ipn:1.0", b"dtn://y/z"])
+        pl = rnd_bytes(rng, 40)
+        out.append(line(["MK " + xhex(pl), _new(src, dst, rnd_u64(rng), 0, OFFSET + rng.choice([1, 1000, 10 ** 12, U64 - 1 - OFFSET])),
+                         "META 1", "PAYLOAD 1", "TOCBOR 1", "FROM 4", "VALID 1", "BFREE 3", "MFREE 2", "BNDFREE 5", "BFREE 4", "BNDFREE 1", "DROP 0"]))
     pool = [buf_valid(rng) for _ in range(60 if tier == "quick" else 400)]
     one = enum_orders(1, 6)
     two = enum_orders(2, 5 if tier == "quick" else 6)
